@@ -105,7 +105,8 @@ def ctlFeedD {Msg} (U : Unpack Msg) (D : Msg → Bool) (minLen : Nat) (s : CS Ms
   match s.st with
   | .alive =>
     let buf := s.buf ++ chunk
-    let (off, d, st) := ctlLoopD U D minLen (buf.length + 1) false buf 0 s.delivered
+    -- `self.disconnected` persists across reads: it is set as soon as the handler of any delivered message disconnected
+    let (off, d, st) := ctlLoopD U D minLen (buf.length + 1) (s.delivered.any D) buf 0 s.delivered
     { buf := buf.drop off, delivered := d, st := st }
   | _ => s
 
